@@ -37,7 +37,7 @@ def descrNames : List (String × Descr) :=
    ("ScalarSkyCoord", .scalarSky), ("OneDSkyCoord", .oneDSky), ("ScalarAngle", .scalarAngle),
    ("PositiveScalarAngle", .posScalarAngle), ("RegionType:PixelRegion", .regionType false),
    ("RegionType:SkyRegion", .regionType true), ("RegionMetaDescr", .rmeta),
-   ("RegionVisualDescr", .rvisual)]
+   ("RegionVisualDescr", .rvisual), ("TextString", .text)]
 
 def descrStr (d : Descr) : String :=
   match descrNames.find? (fun p => p.2 == d) with
@@ -122,7 +122,7 @@ def snapMeta (m : MetaObj) : Json :=
   Json.mkObj [("vis", .bool m.vis), ("it", itemsJson m.items)]
 
 def snapList (l : RList) : Json :=
-  Json.mkObj [("tuple", .bool l.isTuple),
+  Json.mkObj [("tuple", .bool false),
     ("it", .arr (l.items.map fun x => Json.arr #[.bool x.isRegion, .str x.tag]).toArray)]
 
 def snapObj : Obj → Json
@@ -257,6 +257,14 @@ def c17Ops : List (String × Handler) := [
     match made with
     | .error e => pure (ctorFailed e)
     | .ok m => pure (reply (.metaObj m) ops)),
+  ("c17.mask", fun j => do
+    match ← fInts j "box" with
+    | [ny, nx] =>
+      let r := match maskCtor (← fInts j "shape") ny nx with
+        | .ok () => "ok"
+        | .error e => excStr e
+      pure (Json.mkObj [("r", .str r)])
+    | _ => .error "box needs [ny, nx]"),
   ("c17.list", fun j => do
     let arg ← match fieldD j "arg" .null with
       | .null => pure none
